@@ -183,7 +183,7 @@ var c04Pairs = [][3]string{
 	{"Cookie", "a=1", "a=2"},
 	{"Cookie", "a=1; b=2", "a=1"},
 	{"X-A", "1", "10"},
-	{"X-A", "1", "1 "+"2"},
+	{"X-A", "1", "1 " + "2"},
 	{"Accept-Charset", "utf-8", "iso-8859-1"},
 	{"If-Modified-Since", "Mon, 01 Jan 1990 00:00:00 GMT", "Tue, 02 Jan 1990 00:00:00 GMT"},
 }
